@@ -138,3 +138,14 @@ package getsvc
 //@   property C23
 //@   callee (*atomic.Uint32).Store
 //@   requires [the_lost_part_that_started_the_recovery_is_counted] a0 == 1
+
+// ---- C23 (EC object read in full with data parts lost): the parent header - the payload length
+// the decoder needs, and the header the reader is answered with - travels with every part, parity
+// parts included. When no data part could be read (possible within the parity budget whenever the
+// rule has no more data parts than parity parts: 1/1, 2/2, ...) the parity stage is the only
+// source of it: the goroutine that fetches a parity part keeps the header it is given when none
+// was received before (the same atomic flag as in the data stage).
+//@ callrule c23_parity_part_supplies_the_parent_header in (*Service).restoreFromECPartsByRule$2
+//@   property C23
+//@   callee (*atomic.Bool).Swap
+//@   requires [header_kept_once] a0
